@@ -112,6 +112,9 @@ func record(args []string) error {
 			if len(st.SampleEvts) < 3 && (ev.Op == "encode" || ev.Op == "decode" || ev.Op == "prim" || ev.Op == "calc") {
 				st.SampleEvts = append(st.SampleEvts, ev)
 			}
+			if k := classKey(ev); k != "" {
+				g.Classes[k]++
+			}
 			if err := rec.Emit(ev); err != nil {
 				return err
 			}
@@ -170,4 +173,46 @@ func selftest() error {
 	}
 	fmt.Printf("selftest ok: %d values over %d types\n", n, len(vh.TypeNames()))
 	return nil
+}
+
+func lenClass(n int) string {
+	switch {
+	case n == 0:
+		return "0"
+	case n == 1:
+		return "1"
+	case n < 255:
+		return "<255"
+	case n <= 257:
+		return fmt.Sprint(n)
+	case n < 65535:
+		return "<65535"
+	case n <= 65537:
+		return fmt.Sprint(n)
+	}
+	return "big"
+}
+
+// classKey: the boundary class of a primitive / checksum event (for the distinct_nontrivial count)
+func classKey(ev vh.Event) string {
+	switch ev.Op {
+	case "prim":
+		a, _ := ev.Args.(map[string]any)
+		n := 0
+		for _, k := range []string{"vals", "s", "objs"} {
+			if l, ok := a[k].([]any); ok && len(l) > n {
+				n = len(l)
+			}
+			if l, ok := a[k].([]int); ok && len(l) > n {
+				n = len(l)
+			}
+		}
+		if c, ok := a["count"].(int); ok && c > n {
+			n = c
+		}
+		return fmt.Sprintf("prim/%s/pw=%v/pw2=%v/le=%v/ek=%v/n=%v/pad=%v/left=%v/len=%s/%s", ev.Fn, a["pw"], a["pw2"], a["le"], a["ek"], a["n"], a["pad"], a["left"], lenClass(n), ev.Res)
+	case "calc":
+		return fmt.Sprintf("calc/%s/len=%s/big=%v", ev.Alg, lenClass(ev.InLen), ev.Big)
+	}
+	return ""
 }
